@@ -6,6 +6,7 @@ import (
 	"math"
 	"os"
 	"sort"
+	"sync"
 
 	"github.com/semafind/semadb/conversion"
 	"github.com/semafind/semadb/diskstore"
@@ -435,4 +436,69 @@ func (r *Runner) RepeatProbe(leaves []Q) {
 		r.TextQuery(r.Shard, *tp, leaves)
 	}
 	r.afterRepeat = false
+}
+
+// FlatBurst: k different flat searches at the same moment on the same shard, then
+// the same k searches one after the other: an answer is a function of the
+// committed history, not of what other requests do meanwhile.
+func (r *Runner) FlatBurst(k int) {
+	for _, p := range r.Cfg.Props {
+		if p.Type != models.IndexTypeVectorFlat {
+			continue
+		}
+		type one struct {
+			vec   []float32
+			avec  []int
+			limit int
+		}
+		qs := make([]one, k)
+		for i := range qs {
+			v, a := r.G.vec(p.Dim, p.Metric)
+			qs[i] = one{v, a, r.limit()}
+		}
+		run := func(q one) ([]M, error) {
+			mq := models.Query{Property: p.Name, VectorFlat: &models.SearchVectorFlatOptions{Vector: append([]float32{}, q.vec...), Operator: models.OperatorNear, Limit: q.limit}}
+			res, err := r.Shard.SearchPoints(models.SearchRequest{Query: mq, Limit: 100000})
+			if err != nil {
+				return nil, err
+			}
+			// (quantised distances are small fractions: three decimals; otherwise the metric's own scale, which
+			// keeps haversine metres inside TLC's 32-bit integers)
+			scale := MetricScale(p.Metric)
+			if r.Cfg.Quantised {
+				scale = 1000
+			}
+			h, ok := r.hits(res, scale)
+			if !ok {
+				return nil, fmt.Errorf("result without distance")
+			}
+			return h, nil
+		}
+		burst := make([][]M, k)
+		errs := make([]error, k)
+		var wg sync.WaitGroup
+		start := make(chan struct{})
+		for i := range qs {
+			wg.Add(1)
+			go func(i int) {
+				defer wg.Done()
+				<-start
+				burst[i], errs[i] = run(qs[i])
+			}(i)
+		}
+		close(start)
+		wg.Wait()
+		for i, q := range qs {
+			if errs[i] != nil {
+				r.obsErr("FlatBurst", errs[i])
+				continue
+			}
+			single, err := run(q)
+			if err != nil {
+				r.obsErr("FlatBurst", err)
+				continue
+			}
+			r.TW.Emit("FlatPair", M{"p": p.Name, "vec": q.avec, "limit": q.limit, "filter": noFilter, "a": burst[i], "b": single, "what": "burst/single"})
+		}
+	}
 }
